@@ -35,14 +35,16 @@ type Step struct {
 	Txs      []TxSpec `json:"txs,omitempty"`
 	Absent   []string `json:"absent,omitempty"`
 	Evidence []string `json:"evidence,omitempty"`
-	Dt       int64    `json:"dt,omitempty"`     // extra seconds added to the clock before this block
-	Hour     int      `json:"hour,omitempty"`   // 1..24: move the clock forward to the next time with hour-1 (UTC)
-	N        int      `json:"n,omitempty"`      // skip: number of empty blocks
-	K        int      `json:"k,omitempty"`      // block: the process dies after the k-th database write of this block's commit
-	After    string   `json:"after,omitempty"`  // block: the process dies after the first commit write whose label has this prefix
-	AfterN   int      `json:"afterN,omitempty"` // block: ... after the afterN-th such write
-	Align    bool     `json:"align,omitempty"`  // export_import: first run empty blocks up to the next stake-recalculation height (no pending stake updates at the export)
-	Quiet    bool     `json:"quiet,omitempty"`  // skip: only the last two blocks are logged step by step; the others end in one "Jump" record
+	Dt       int64    `json:"dt,omitempty"`       // extra seconds added to the clock before this block
+	Hour     int      `json:"hour,omitempty"`     // 1..24: move the clock forward to the next time with hour-1 (UTC)
+	N        int      `json:"n,omitempty"`        // skip: number of empty blocks
+	K        int      `json:"k,omitempty"`        // block: the process dies after the k-th database write of this block's commit
+	After    string   `json:"after,omitempty"`    // block: the process dies after the first commit write whose label has this prefix
+	AfterN   int      `json:"afterN,omitempty"`   // block: ... after the afterN-th such write
+	LateSnap bool     `json:"lateSnap,omitempty"` // block: the background snapshot of this block starts only after the next block's state tree is saved
+	Back     int      `json:"back,omitempty"`     // statesync: restore from the snapshot `back` blocks behind the tip (0 or 1) and replay the missing block
+	Align    bool     `json:"align,omitempty"`    // export_import: first run empty blocks up to the next stake-recalculation height (no pending stake updates at the export)
+	Quiet    bool     `json:"quiet,omitempty"`    // skip: only the last two blocks are logged step by step; the others end in one "Jump" record
 }
 
 // RecTx is the abstract description of a delivered transaction (ground truth included).
@@ -229,8 +231,10 @@ type runCtx struct {
 	clock    int64
 	dead     bool
 	idead    bool
-	imported bool // the node under observation was started from an export of the (now reference) node: compare in normalised form
-	folded   bool // ... and the export had pending stake updates, which the import folds into the stakes one period early
+	last     *builtBlock       // the block committed last (replayed by a node restored from an older snapshot)
+	hashAt   map[uint64]string // app hash returned by the commit of each height
+	imported bool              // the node under observation was started from an export of the (now reference) node: compare in normalised form
+	folded   bool              // ... and the export had pending stake updates, which the import folds into the stakes one period early
 }
 
 func (c *runCtx) rec(kind string, h uint64) *Rec {
@@ -367,7 +371,7 @@ func (r *Runner) RunScenario(sc *Scenario) {
 	r.seq++
 	dir := fmt.Sprintf("%s/n%d", r.WorkDir, r.seq)
 	nd, res := NewNodeSnap("A", w, n, backend, dir, sc.Snap)
-	c := &runCtx{r: r, sc: sc, nd: nd, u: NewUniverse()}
+	c := &runCtx{r: r, sc: sc, nd: nd, u: NewUniverse(), hashAt: map[uint64]string{}}
 	defer func() {
 		c.nd.Close()
 		if c.id != nil {
@@ -427,7 +431,7 @@ func (r *Runner) RunScenario(sc *Scenario) {
 		case "restart":
 			c.restart("Restart")
 		case "statesync":
-			c.stateSync()
+			c.stateSync(st.Back)
 		case "export_import":
 			for st.Align && !c.dead && c.h%c.nd.W.StakePeriod != 0 {
 				c.block(&Step{Op: "block"})
@@ -799,6 +803,10 @@ func (c *runCtx) block(st *Step) {
 	} else {
 		nd.Disk.WC.Arm(0)
 	}
+	if st.LateSnap && nd.Snap > 0 {
+		nd.Disk.WC.ArmGate()
+	}
+	c.last = bb
 	cr, cres := nd.Commit()
 	_, crec.Writes = nd.Disk.WC.Disarm()
 	if cres.Crashed {
@@ -811,6 +819,7 @@ func (c *runCtx) block(st *Step) {
 		if crec.Obs != nil {
 			crec.Obs.Hash = crec.Hash
 		}
+		c.hashAt[h] = crec.Hash
 		c.h = h
 		c.diskProjection(crec)
 	}
